@@ -148,7 +148,7 @@ Proof.
       eapply (rej_seq_after _ _ _ _ _ _ _ _ any); [apply ok_tag | exact I |]. apply rejseq_head.
       rewrite app_assoc. apply rej_enc_alts, Hm. }
     apply ok_alt_here. eapply ok_map.
-    { apply ok_string_utf8; [apply enc_string_q; constructor; exact Hs | exact Hu]. }
+    { apply ok_string_utf8; [apply enc_string_q, enc_quoted_intro; exact Hs | exact Hu]. }
     reflexivity.
   - apply ok_alt_skip.
     { intros rest _. destruct Hl as [s' ds]. cbn [app]. apply rej_map, rej_seq_head, rej_tag. reflexivity. }
